@@ -566,7 +566,17 @@ def st1(ctx, R):
             "reads NI_Scaling_Status", "the status compared with 'scaled' is `%s`, not the NI_Scaling_Status property" % show(c)[:120])
     branch = "true" if c[1] == "==" else "false"
     succ = [m for m, k in t.succ if k == branch]
-    ret_none = bool(succ) and all(m.kind == "return" and (m.ast.value is None or (isinstance(m.ast.value, ast.Constant) and m.ast.value.value is None)) for m in succ)
+    is_none_ret = lambda m: m.kind == "return" and (m.ast.value is None or (isinstance(m.ast.value, ast.Constant) and m.ast.value.value is None))
+    ret_none = bool(succ) and all(is_none_ret(m) for m in succ)
+    if not ret_none and succ:
+        # something harmless (a log line) between the test and the return: every return reached from the branch returns None and the
+        # branch does not fall out of the function any other way
+        reach_ = set(cfg.reach(succ, follow_exc=False)) | set(succ)
+        rets_ = [m for m in reach_ if m.kind == "return"]
+        only_log = all(m.kind in ("return", "exit", "raise") or (m.kind == "stmt" and isinstance(m.ast, ast.Expr) and isinstance(m.ast.value, ast.Call)
+                                                                  and (call_name(m.ast.value) or "").startswith(("log.", "logging.", "logger.")))
+                       for m in reach_ if m is not cfg.exit and m is not cfg.raise_exit)
+        ret_none = bool(rets_) and all(is_none_ret(m) for m in rets_) and only_log
     helpers = [f for f in module_region(prog, fi) if f is not fi and any(isinstance(x, ast.Call) and _constructs_scaling(prog, f, x) for x in walk_body(f.node))]
     hq = {f.qual for f in helpers}
 
